@@ -32,9 +32,13 @@ DUNDERS = ["__path__", "__package__", "__loader__", "__spec__", "__cached__"]
 # generator: (old, new) versions of one module, with a descriptor per module-level name
 
 NAMES = ["f", "g", "h", "A", "B", "S", "i1", "i2", "s1", "d1", "l1", "dd", "w"]
+# values that compare equal (==) but differ in type or representation
+EQUAL_CLASSES = [["30", "30.0"], ["0", "False", "0.0"], ["1", "True", "1.0"], ["(1, 2)", "(1.0, 2)", "(True, 2)"],
+                 ["Decimal('1.5')", "Decimal('1.50')"], ["'a'", "'a'"], ["frozenset({1})", "frozenset({True})"]]
 PRE = ["def mk(v):", "    def inner(): return ('inner', v)", "    return inner",
        "def mk2(fn):", "    def inner(): return ('inner2', fn())", "    return inner",
-       "def deco(fn):", "    def wrapper(): return ('wrapped', fn())", "    return wrapper"]
+       "def deco(fn):", "    def wrapper(): return ('wrapped', fn())", "    return wrapper",
+       "from decimal import Decimal"]
 
 
 def gen_version(r, ver, rich):
@@ -58,6 +62,21 @@ def gen_version(r, ver, rich):
     for n in ("dflt", "kwd", "ann", "docf"):
         desc[n] = ("func", n, None)
     desc["Dm"] = ("class", None, {"m": "method", "s": "static", "c": "clsm"}, None)
+    desc["Decimal"] = ("data",)
+    # plain data that changes to an EQUAL value of another type / representation: module level, function
+    # attribute, class attribute, dict entry, instance attribute
+    eqc = r.choice(EQUAL_CLASSES)
+    ev = lambda: r.choice(eqc)
+    lines += ["eq1 = %s" % ev(), "eq2 = %s" % r.choice(r.choice(EQUAL_CLASSES)),
+              "docf.eqtag = %s" % ev(),
+              "class Eq:", "    ev = %s" % ev(),
+              "eqd = {'e': %s, 'k': %s}" % (ev(), ev()),
+              "eqi = Eq()", "eqi.val = %s" % ev()]
+    for n in ("eq1", "eq2"):
+        desc[n] = ("data",)
+    desc["Eq"] = ("class", None, {"ev": "data"}, None)
+    desc["eqd"] = ("dict",)
+    desc["eqi"] = ("inst", "Eq")
     classes = []
     # module-level dunder names of the SOURCE (not of the import system): they appear, change and disappear
     tail = []
@@ -278,8 +297,12 @@ def gen_cases(ctx, n):
             od = {a: ("shared",), b: ("shared",), "mkA": ("func", "mkA", None), "mkB": ("func", "mkB", None)}
             nd = {a: ("func", "inner", None), b: ("func", "inner", None), "mkA": ("func", "mkA", None), "mkB": ("func", "mkB", None)}
             split = [a, b]
+        # interpreter flags and log level are environment, the observables must not depend on them
+        env = {1: "O", 4: "OO", 6: "debug"}.get(i % 8, "")
+        set_level = {3: "DEBUG", 7: "WARNING"}.get(i % 8)
         cases.append({"kind": "pair", "i": i, "tag": "%d_%d" % (ctx.seed % 100000, i), "old": osrc, "new": nsrc,
-                      "od": od, "nd": nd, "pkg": i % 4 == 1, "mode": mode, "split": split})
+                      "od": od, "nd": nd, "pkg": i % 4 == 1, "mode": mode, "split": split, "env": env,
+                      "set_level": set_level})
     return cases
 
 
@@ -447,14 +470,19 @@ def _members(c, inst):
         try: v = getattr(inst if inst is not None else c, k)
         except Exception as e:
             out[k] = 'EXC ' + type(e).__name__; continue
-        out[k] = _call(v) if callable(v) else repr(v)
+        out[k] = _call(v) if callable(v) else type(v).__name__ + ':' + repr(v)
         if isinstance(vars(c).get(k), (staticmethod, classmethod)) or callable(getattr(c, k, None)):
             out[k + '@class'] = _call(getattr(c, k))
     return out
+_MODNAME = [None]
 def obs_val(v, depth=0):
+    owner = v.__module__ if isinstance(v, (type, types.FunctionType)) else type(v).__module__
+    if _MODNAME[0] is not None and owner != _MODNAME[0] and not isinstance(v, (dict, list, tuple, types.MethodType)):
+        return ['data', type(v).__name__, v.__qualname__ if isinstance(v, types.FunctionType) else repr(v)]  # foreign object
     if isinstance(v, types.FunctionType):
         return ['func', v.__name__, _call(v), repr(v.__defaults__), repr(v.__kwdefaults__), v.__doc__,
-                sorted((k, getattr(t, '__name__', repr(t))) for k, t in v.__annotations__.items()), sorted(v.__dict__.items())]
+                sorted((k, getattr(t, '__name__', repr(t))) for k, t in v.__annotations__.items()),
+                sorted((k, type(x).__name__, repr(x)) for k, x in v.__dict__.items())]
     if isinstance(v, types.MethodType):
         return ['method', _call(v)]
     if isinstance(v, type):
@@ -468,13 +496,14 @@ def obs_val(v, depth=0):
     if type(v).__module__ not in ('builtins',) and not isinstance(v, types.ModuleType):
         d = getattr(v, '__dict__', None)
         sl = [(k, repr(getattr(v, k))) for k in getattr(v, '__slots__', ()) if hasattr(v, k)]
-        return ['inst', type(v).__name__, sorted((k, repr(x)) for k, x in d.items()) if isinstance(d, dict) else None, sl, _members(type(v), v)]
-    return ['data', repr(v)]
+        return ['inst', type(v).__name__, sorted((k, type(x).__name__, repr(x)) for k, x in d.items()) if isinstance(d, dict) else None, sl, _members(type(v), v)]
+    return ['data', type(v).__name__, repr(v)]
 # module attributes set by the import system / by xreload itself, not by the source
 LOADER_DUNDERS = ('__builtins__', '__cached__', '__file__', '__loader__', '__name__', '__package__', '__spec__',
                   '__doc__', '__path__', '__loadtime__')
 def observe(mod):
     out = {}
+    _MODNAME[0] = mod.__name__
     for n, v in sorted(vars(mod).items()):
         if n in LOADER_DUNDERS: continue
         out[n] = obs_val(v)
@@ -537,11 +566,48 @@ def inject_failure(src, k, kind=0):
     return "\n".join(lines[:ln - 1] + [stmt] + lines[ln - 1:])
 
 
+ENVS = {"": None, "O": {"PYTHONOPTIMIZE": "1"}, "OO": {"PYTHONOPTIMIZE": "2"}, "debug": {"PYFLYBY_LOG_LEVEL": "DEBUG"},
+        "warning": {"PYFLYBY_LOG_LEVEL": "WARNING"}}
+
+
+def run_partitioned(module, cases, timeout_case):
+    """run_impl per environment group (python -O / -OO through PYTHONOPTIMIZE, log level at import time)"""
+    results = [None] * len(cases)
+    groups = {}
+    for idx, c in enumerate(cases):
+        groups.setdefault(c.get("env") or "", []).append(idx)
+    for key in sorted(groups):
+        idxs = groups[key]
+        rs = cm.run_impl(module, "impl_case", [cases[i] for i in idxs], timeout_case=timeout_case, env_extra=ENVS[key])
+        for i, r in zip(idxs, rs):
+            results[i] = r
+    return results
+
+
 def impl_case(c):
     import importlib
     import linecache
     import time
     import pyflyby._livepatch as LP
+    if c.get("env") in ("O", "OO"):
+        if sys.flags.optimize != {"O": 1, "OO": 2}[c["env"]]:
+            raise RuntimeError("worker is not running with the requested optimisation level")
+    saved_level = None
+    if c.get("set_level"):
+        from pyflyby._log import logger as _lg
+        saved_level = _lg.level
+        _lg.set_level(c["set_level"])
+    try:
+        return _impl_case(c, LP)
+    finally:
+        if saved_level is not None:
+            _lg.setLevel(saved_level)
+
+
+def _impl_case(c, LP):
+    import importlib
+    import linecache
+    import time
     obs_ns = {}
     exec(OBSERVE, obs_ns)
     root = tempfile.mkdtemp(prefix="verif-c16-")
@@ -686,11 +752,14 @@ def impl_case(c):
         out["identity"] = ident
         out["repointed"] = sorted(n for n, v in cur.items() if isinstance(v, type) and captured.get(n) is v and
                                   any(getattr(b, "__module__", None) == name and cur.get(b.__name__) is not b for b in v.__bases__))
+        obs_ns["_MODNAME"][0] = name
         out["via_old_refs"] = {n: obs_ns["obs_val"](v) for n, v in captured.items()
                                if n not in obs_ns["LOADER_DUNDERS"] and ident.get(n) == "kept"}
         out["after"] = obs_ns["observe"](mod)
         out["registry_is_module"] = sys.modules.get(name) is mod
         env = {"PATH": os.environ.get("PATH", "/usr/bin:/bin"), "PYTHONDONTWRITEBYTECODE": "1", "PYTHONHASHSEED": "0", "LC_ALL": "C.UTF-8"}
+        if os.environ.get("PYTHONOPTIMIZE"):
+            env["PYTHONOPTIMIZE"] = os.environ["PYTHONOPTIMIZE"]      # -OO strips docstrings on both sides
         p = subprocess.run([sys.executable, "-S", "-c", FRESH_CHILD], input=json.dumps({"root": root, "name": name}),
                            capture_output=True, text=True, env=env, timeout=60, cwd=root)
         line = [l for l in p.stdout.splitlines() if l.startswith("RESULT")]
@@ -943,6 +1012,7 @@ def compare(ctx, cases, impl, index, model):
             ctx.violation("harness_worker_exception", c, im)
             continue
         ctx.bump("mode:" + c["mode"] + (":pkg" if c["pkg"] else ""))
+        ctx.bump("env:" + (c.get("env") or "default") + ("+set_level:" + c["set_level"] if c.get("set_level") else ""))
         if "decision" in im:
             mv, _ = got[(ci, "decide")]
             d = im["decision"]
@@ -1027,7 +1097,7 @@ def run(ctx):
     cm.check_anchors(ctx, ANCHORS)
     n *= getattr(ctx, "scale", 1)
     cases = cm.load_corpus("C16") + gen_cases(ctx, n)
-    impl = cm.run_impl("c16", "impl_case", cases, timeout_case=120)
+    impl = run_partitioned("c16", cases, 120)
     exprs, index = model_exprs(cases, impl)
     model = cm.coq_eval_json(REQ, exprs, shard=20)
     compare(ctx, cases, impl, index, model)
@@ -1036,7 +1106,7 @@ def run(ctx):
 
 def replay(payload):
     case = payload.get("case") or payload["disagreements"][0]["case"]
-    impl = cm.run_impl("c16", "impl_case", [case], jobs=1, timeout_case=120)
+    impl = run_partitioned("c16", [case], 120)
     exprs, index = model_exprs([case], impl)
     model = cm.coq_eval_json(REQ, exprs)
     ctx = cm.Ctx("C16", "quick", payload.get("seed", 0))
